@@ -298,7 +298,7 @@ func (r *Run) finish() {
 		r.st.Violation = &violationRec{Message: r.failV.Violation, Fingerprint: r.failV.Fingerprint, Replay: path}
 		fmt.Printf("HARNESS-VIOLATION property=%s replay=%s fingerprint=%s\n%s\n", r.id, path, r.failV.Fingerprint, r.failV.Violation)
 	}
-	r.st.NonTrivial = r.st.NonTrivial[:0]
+	r.st.NonTrivial = []uint64{}
 	for h := range r.nt {
 		r.st.NonTrivial = append(r.st.NonTrivial, h)
 	}
